@@ -573,6 +573,17 @@ def _graph_state_atoms(sx: SymX, f: Formula, graph: Term, config: set[str], ends
     return ok
 
 
+def _is_presence_test(t: Term | None, x: Term, graph: Term) -> bool:
+    """`x in graph` / `graph.has_node(x)` (also on `graph.nodes`)."""
+    if t is None:
+        return False
+    if t[0] == "cmp" and t[1] == "in" and t[2] == x:
+        return any(y[:2] == graph[:2] for y in subterms(t[3]))
+    if t[0] == "mcall" and t[2] == "has_node" and t[3] == (x,):
+        return t[1][:2] == graph[:2]
+    return False
+
+
 def _holds_whenever_state_allows(f: Formula, free: set[str]) -> bool:
     """True if for every valuation of the other atoms some valuation of the `free` atoms makes `f` true."""
     names = sorted(atoms_of(f))
@@ -694,6 +705,19 @@ def rule_r4(repo: Repo, res: Result) -> None:
         ok = not any(kd.startswith("IMPORTEE") for kd in kinds)
         res.add("C04.R4", repo.key(e.fi, stmt_of(e.node)) + f" [node from {kinds or ['?']}]", ok, "nodes are created from scanned modules / importers and their ancestors" if ok else f"`{norm(e.node, 60)}` creates a node from an *imported* name ({show(next(s[1] for s in src if s[0].startswith('IMPORTEE')), 100)}): names that are not files or directories of the scanned tree (relative import parts, functions, classes) become modules", where(e.fi, e.node), kind="flow")
     res.floor("C04.R4.nodes", 2, k)
+    # networkx creates missing end nodes of an edge: an edge that involves an imported name must be guarded by 'both ends are nodes'
+    for e, a, b, _inh in edge_events:
+        ends = [x for x in (a, b) if any(s_[0].startswith("IMPORTEE") for s_ in names.sources(x))]
+        if not ends:
+            continue
+        f = f_and(e.pc)
+        missing = []
+        for x in ends:
+            present = [key for key in atoms_of(f) if _is_presence_test(sx.atoms.get(key), x, graph)]
+            if not any(implies(f, atom(key)) for key in present):
+                missing.append(x)
+        ok = not missing
+        res.add("C04.R4", repo.key(e.fi, stmt_of(e.node)) + f" [edge end from imported name: {show(ends[0], 50)}]", ok, "edges to imported names are only added between existing nodes" if ok else f"`{norm(e.node, 60)}` adds an edge whose end `{show(missing[0], 80)}` comes from an imported name without testing that it is a node: networkx creates the missing node, so functions / classes / unresolved names become modules", where(e.fi, e.node), kind="dominance")
     # ---- the hierarchy of every scanned module: get_parent_modules(module) + [module]
     def chain_of(pos):
         """(module symbol, 'full' | 'parents') if the position walks the ancestor chain of a scanned module."""
